@@ -18,7 +18,7 @@ BUDGET = {"quick": 600, "thorough": 3000}
 META = dict(
     rule="prefix tree: every series of length 1..N over {0,1,3,4,NaN} x method in {average,differential} x "
          "(suspect,fail) in ({None,.5,1,1.5,2,3})^2, each executed on the real spike_test (ndarray carrier; python "
-         "lists with None/NaN for N<=3) and judged per point by the scalar reference; plus every unknown-method "
+         "lists with None/NaN for N<=3) and judged per point by the scalar reference; plus float32 / float16 carriers at magnitudes (2^24, 2^11) where arithmetic in the narrow type is inexact; plus every unknown-method "
          "spelling x thresholds x series of length<=3 (must raise ValueError). non-trivial = reference demands a "
          "SUSPECT or FAIL somewhere, or an exception",
     bounds={"quick": {"max_len": 5, "alphabet": list(SIGMA), "thresholds": list(THR)},
@@ -39,6 +39,7 @@ def tasks(tier):
     for m in ("bogus", "Average", ""):
         ts.append(("badmethod", m, 3))
     ts.append(("lists", 3))
+    ts.append(("narrow",))
     return ts
 
 
@@ -47,7 +48,11 @@ def check_case(case):
 
     x = case["x"]
     n = len(x)
-    if case.get("carrier") == "list":
+    if case.get("carrier") in ("f4", "f2"):
+        import numpy as np
+
+        inp = np.array([alpha.to_float(v) for v in x], dtype="float32" if case["carrier"] == "f4" else "float16")
+    elif case.get("carrier") == "list":
         inp = alpha.pylist(x)
     else:
         inp = alpha.nd(x)
@@ -78,6 +83,15 @@ def run_task(task, acc):
         cases = (dict(x=list(x), suspect=s, fail=f, method=m)
                  for x in alpha.all_seqs(SIGMA, 1, n) for s, f in itertools.product(THR[:3], repeat=2))
         run_cases(acc, cases, check_case)
+    elif kind == "narrow":
+        def gen():
+            for carrier, base in (("f4", float(2 ** 24)), ("f2", float(2 ** 11))):
+                sig = (base, base + 2, base + 4, alpha.NAN)
+                for x in alpha.all_seqs(sig, 3, 5):
+                    for m in METHODS:
+                        for s, f in ((1.5, 3.0), (0.5, None), (None, 1.5)):
+                            yield dict(x=list(x), suspect=s, fail=f, method=m, carrier=carrier)
+        run_cases(acc, gen(), check_case)
     elif kind == "lists":
         sig = (0.0, 3.0, alpha.NAN, None)
         cases = (dict(x=list(x), suspect=s, fail=f, method=m, carrier="list")
